@@ -51,6 +51,10 @@ def bounds(tier):
                      "convergence horizon": 4000 if tier == "quick" else 20000}}
 
 
+def _is_cplx(name):
+    return name == "cplx32" or (name.startswith("rand") and name[6] == "c")
+
+
 def matrix(name, seed):
     r = np.random.default_rng(77 + seed)
     if name == "I2":
@@ -61,6 +65,11 @@ def matrix(name, seed):
         return r.standard_normal((3, 2))
     if name == "cplx32":
         return r.standard_normal((3, 2)) + 1j * r.standard_normal((3, 2))
+    if name.startswith("rand"):        # thorough tier: "rand<m><n><r|c><k>" - k-th random m x n real/complex matrix
+        m_, n_, kind_, k_ = int(name[4]), int(name[5]), name[6], int(name[7:])
+        r2 = np.random.default_rng(1000 + 97 * k_ + 10 * m_ + n_ + seed)
+        M_ = r2.standard_normal((m_, n_))
+        return M_ + 1j * r2.standard_normal((m_, n_)) if kind_ == "c" else M_
     n = 100 if name == "worst100" else 6
     A = np.zeros((n + 1, n))
     for i in range(n):
@@ -74,9 +83,9 @@ def problem(case, seed):
     m, n = A.shape
     r = np.random.default_rng(5 + seed)
     xt = np.array(([1.0, 0.05, -0.6, 0.0, 0.3, -0.02] * (n // 6 + 1))[:n], dtype=complex)
-    if case["A"] == "cplx32":
+    if _is_cplx(case["A"]):
         xt = xt * (1 + 0.5j)
-    y = A @ xt + 0.05 * (r.standard_normal(m) + (1j * r.standard_normal(m) if case["A"] == "cplx32" else 0))
+    y = A @ xt + 0.05 * (r.standard_normal(m) + (1j * r.standard_normal(m) if _is_cplx(case["A"]) else 0))
     if case["A"] in ("worst6", "worst100"):
         y = np.zeros(m, complex)
         y[0] = 1.0
@@ -87,11 +96,14 @@ def problem(case, seed):
     return A, y, kind, par
 
 
+MATS_T = MATS + ["rand53r0", "rand53r1", "rand43c0", "rand43c1", "rand44r0", "rand64c0", "rand33c0"]   # full column rank (a unique minimiser)
+
+
 def gen_cases(tier, seed):
     cases = []
-    for A in MATS:
+    for A in (MATS_T if tier == "thorough" else MATS):
         for g in REGS:
-            if g in ("box", "boxfar") and A == "cplx32":
+            if g in ("box", "boxfar") and _is_cplx(A):
                 continue
             for x0 in ("zero", "generic"):
                 for alpha in ("1/L", "1/2L"):
@@ -117,9 +129,9 @@ def gen_cases(tier, seed):
     for g in (None, "l2sq"):
         for acc in (False, True):
             cases.append(dict(kind="gm", A="worst100", g=g, x0="zero", alpha="1/L", acc=acc, tier=tier, K=2000))
-    for A in MATS:
+    for A in (MATS_T if tier == "thorough" else MATS):
         for g in REGS:
-            if g in ("box", "boxfar") and A == "cplx32":
+            if g in ("box", "boxfar") and _is_cplx(A):
                 continue
             for start in ("zero", "generic", "saddle"):
                 for steps in ("bal1", "bal05", "unbal", "diag"):
@@ -220,7 +232,7 @@ def run_gm_alias(case, seed):
 def run_gm(case, seed):
     import sigpy as sp
     A, y, kind, par, xs, Fs, gap = reference(case, seed)
-    real = case["A"] != "cplx32"
+    real = not _is_cplx(case["A"])
     n = A.shape[1]
     K = case.get("K") or (150 if case["tier"] == "quick" else 400)
     viol = []
@@ -276,7 +288,7 @@ def run_gm(case, seed):
 def run_pdhg(case, seed):
     import sigpy as sp
     A, y, kind, par, xs, Fs, gap = reference(case, seed)
-    real = case["A"] != "cplx32"
+    real = not _is_cplx(case["A"])
     m, n = A.shape
     K = 150 if case["tier"] == "quick" else 400
     KC = 4000 if case["tier"] == "quick" else 20000
